@@ -12,7 +12,7 @@ use uom::si::time::second;
 pub type DriftJson = Vec<(Vec<(f64, f64, f64)>, f64)>;
 
 pub fn load_drift() -> DriftJson {
-    serde_json::from_slice(&std::fs::read("/repo/physics/data/simulation/drift_table/drift_1T_70Ar_30CO2.json").expect("drift table")).expect("drift table json")
+    serde_json::from_slice(&std::fs::read(format!("{}/physics/data/simulation/drift_table/drift_1T_70Ar_30CO2.json", crate::core::repo_dir())).expect("drift table")).expect("drift table json")
 }
 
 #[derive(Debug, Clone, Copy, PartialEq)]
